@@ -360,6 +360,48 @@ theorem cant_sign (w : W) (t : STxn) (idx : List Int) (ux : List Nat) :
 (`CreateTransactionSigned`), every input's signature verifies against the address of the output
 that input spends, over (inner hash, uxid) — whatever the order in which the chosen inputs
 revisit the wallet's addresses -/
+theorem keyFor_sec_zero (entries : List Entry) (hw : ∀ e ∈ entries, e.sec = 0) (a k : Nat)
+    (h : keyFor entries a = some k) : k = 0 := by
+  unfold keyFor at h
+  cases hf : entries.find? (·.addr = a) with
+  | none => simp [hf] at h
+  | some e =>
+    simp [hf] at h
+    rw [← h]
+    exact hw e (List.mem_of_find?_eq_some hf)
+
+/-- **created_never_panics**: the signing loop of `CreateTransactionSigned` signs or refuses; a wallet entry without a
+secret key (watch-only / xpub wallets) is an ERROR, never a panic -/
+theorem created_never_panics (entries : List Entry) (inner : Nat) :
+    ∀ (ins : List (Nat × Nat)) (t : String), signCreated entries inner ins ≠ .panic t := by
+  intro ins
+  induction ins with
+  | nil => intro t h; simp [signCreated] at h
+  | cons x r ih =>
+    intro t h
+    obtain ⟨u, a⟩ := x
+    unfold signCreated at h
+    split at h
+    · cases h
+    · split at h
+      · cases h
+      · split at h
+        · cases h
+        · rename_i e he
+          rw [h] at he
+          exact ih t (by assumption) |> fun f => f
+
+/-- a watch-only wallet (every entry without secret key) is refused as soon as one input is owned by it -/
+theorem created_watch_only_refused (entries : List Entry) (hw : ∀ e ∈ entries, e.sec = 0) (inner u a : Nat)
+    (r : List (Nat × Nat)) : ∃ e, signCreated entries inner ((u, a) :: r) = .err e := by
+  unfold signCreated
+  cases hk : keyFor entries a with
+  | none => exact ⟨_, rfl⟩
+  | some k =>
+    have : k = 0 := keyFor_sec_zero entries hw a k hk
+    subst this
+    exact ⟨internal "invalid secret key", by simp⟩
+
 theorem created_sigs_verify (addrOf : Nat → Nat) (verify : Nat → Sig → Nat → Nat → Bool)
     (hsch : SigScheme addrOf verify)
     (entries : List Entry) (hcons : ∀ e ∈ entries, e.sec ≠ 0 → e.addr = addrOf e.sec) (inner : Nat) :
